@@ -673,7 +673,83 @@ def r_sortshape(f):
                 R.inst(b.ident, "s2 key wrapper compares key(first) with key(second): %s" % srcs, ok)
                 if not ok:
                     R.fail(b.ident, "s2:key:%s" % srcs, "%s compares the keys in order %s (want [2, 3]): the sort order is reversed" % (b.ident, srcs), c.where())
+    # s7: the permutation-to-swaps helpers (crate functions of sort.rs over `&mut [(usize, usize)]`) may leave early on the LENGTH
+    # alone - before looking at a single entry - only for lengths below two: two entries can already be out of place
+    for b in f.fn_bodies:
+        if b.kind == "Closure" or not b.blocks or not b.file.replace("\\", "/").endswith("sort.rs") or b.arg_count < 1:
+            continue
+        if "[(usize, usize)]" not in norm_ty(str(b.locals[1])):
+            continue
+        d = Dfx(b)
+        n += 1
+
+        def touches_entries(bi_):
+            bl_ = b.blocks[bi_]
+            t_ = bl_["term"]
+            if t_ and t_["k"] == "call":
+                fn_ = t_["func"].get("fn")
+                if fn_ and fn_["name"] in ("get_unchecked", "get_unchecked_mut", "get", "get_mut", "index", "index_mut", "swap", "iter", "iter_mut", "first", "last", "split_at", "split_at_mut", "into_iter", "sort_by", "sort_unstable_by") and "Range" not in " ".join(fn_.get("args") or []):
+                    return True
+                if fn_ and f.crate_fn_for_call(fn_) is not None:
+                    return True
+            for st_ in bl_["stmts"]:
+                for pl in _places_rs(st_):
+                    if any(pe["k"] in ("index", "constant_index") for pe in pl["proj"]):
+                        return True
+            return False
+        bad7 = []
+        for bi, bl in enumerate(b.blocks):
+            t = bl["term"]
+            if not t or t["k"] != "switch" or bl["cleanup"]:
+                continue
+            e = strip(d.expr(t["discr"]))
+            neg = False
+            while e[0] == "un" and e[1] == "Not":
+                neg = not neg; e = strip(e[2])
+            if e[0] != "bin" or e[1] not in ("Lt", "Le", "Gt", "Ge", "Eq", "Ne"):
+                continue
+
+            def is_len(x):
+                x = strip(x)
+                return (x[0] in ("len", "ptrmeta") or (x[0] == "un" and x[1] == "PtrMetadata") or (x[0] == "call" and x[2] == "len")) and any(y == ("param", 1) for y in walk(x))
+            l_, r_ = strip(e[2]), strip(e[3])
+            if is_len(l_) and const_usize(r_) is not None:
+                c_, op = const_usize(r_), e[1]
+            elif is_len(r_) and const_usize(l_) is not None:
+                c_, op = const_usize(l_), {"Lt": "Gt", "Le": "Ge", "Gt": "Lt", "Ge": "Le", "Eq": "Eq", "Ne": "Ne"}[e[1]]
+            else:
+                continue
+            holds2 = {"Lt": 2 < c_, "Le": 2 <= c_, "Gt": 2 > c_, "Ge": 2 >= c_, "Eq": 2 == c_, "Ne": 2 != c_}[op]
+            tm = [(int(a_), b2) for a_, b2 in t["targets"]]
+            for val, succ in tm + [(None, t["otherwise"])]:
+                truth = (val == 1) or (val is None and any(v_ == 0 for v_, _ in tm))
+                if val is not None and val not in (0, 1):
+                    continue
+                if neg:
+                    truth = not truth
+                if truth != holds2:
+                    continue          # a length of two does not take this edge
+                # is everything from here to the return free of entry accesses (an exit on the length alone)?
+                reach = b.reachable(succ)
+                reach = {x for x in reach if not b.blocks[x]["cleanup"]}
+                if any(b.blocks[x]["term"] and b.blocks[x]["term"]["k"] == "return" for x in reach) and not any(touches_entries(x) for x in reach) \
+                        and not any(touches_entries(x) for x in (b.dominators().get(bi, set()) | {bi})):
+                    bad7.append((t.get("span") or bl["stmts"][-1]["span"] if bl["stmts"] else None, c_, op))
+        R.inst(b.ident, "s7 no exit on the length alone is open to a length of two", not bad7)
+        for sp, c_, op in bad7[:1]:
+            R.fail(b.ident, "s7:len-exit:%s%d" % (op, c_), "%s returns without having looked at a single entry whenever the length is two (test `len %s %d`): two entries can be out of place, so the permutation that swaps them is silently not applied" % (b.ident, {"Lt": "<", "Le": "<=", "Gt": ">", "Ge": ">=", "Eq": "==", "Ne": "!="}[op], c_), b.where(sp) if sp else b.where())
     return R, n
+
+
+def _places_rs(x):
+    if isinstance(x, dict):
+        if "local" in x and "proj" in x:
+            yield x
+        for v in x.values():
+            yield from _places_rs(v)
+    elif isinstance(x, list):
+        for v in x:
+            yield from _places_rs(v)
 
 
 def _root_local(o):
